@@ -372,7 +372,12 @@ pub fn run_property(p: &dyn Property, tier: Tier, seed: u64) -> RunResult {
         Tier::Thorough => 16,
     };
     // VERIF_CASES overrides the fixed case count (used when trying the machinery out)
-    let total_cases = std::env::var("VERIF_CASES").ok().and_then(|s| s.parse().ok()).unwrap_or_else(|| p.cases(tier));
+    let total_cases = std::env::var("VERIF_CASES").ok().and_then(|s| s.parse().ok()).unwrap_or_else(|| match tier {
+        // (session 3: the quick tiers take 1-4 s each at the counts the properties name; three times that is still a
+        // check one runs on every change, and shapes that occur once in 50 000 cases are met on every seed)
+        Tier::Quick => 3 * p.cases(tier),
+        Tier::Thorough => p.cases(tier),
+    });
     let per_worker = (total_cases / workers as u64).max(1);
     let lens = p.stream_lens();
 
